@@ -85,6 +85,29 @@ mod verif_kani {
         kani::cover!(true);
     }
 
+    /// any number the parser or the arithmetic can produce: every u64, every i64, every finite double (no range restriction)
+    fn num_any(kind: u8) -> NumberValue {
+        match kind {
+            0 => NumberValue::Positive(kani::any()),
+            1 => NumberValue::Negative(kani::any()),
+            _ => { let f: f64 = kani::any(); kani::assume(f.is_finite()); NumberValue::Float(f) }
+        }
+    }
+
+    /// The order of numbers is a total preorder over the FULL ranges (beyond 2^53 distinct integers may tie, but the relation
+    /// stays antisymmetric and transitive) - what the std sorts need in order not to panic or misbehave.
+    #[kani::proof]
+    #[kani::unwind(5)]
+    fn k_number_cmp_total_preorder_full() {
+        for ka in 0..3u8 { for kb in 0..3u8 { for kc in 0..3u8 {
+            let a = num_any(ka); let b = num_any(kb); let c = num_any(kc);
+            assert!(a.cmp(&b) == b.cmp(&a).reverse());
+            if a.cmp(&b) != Ordering::Greater && b.cmp(&c) != Ordering::Greater { assert!(a.cmp(&c) != Ordering::Greater); }
+            if a.cmp(&b) == Ordering::Equal && b.cmp(&c) == Ordering::Equal { assert!(a.cmp(&c) == Ordering::Equal); }
+        }}}
+        kani::cover!(true);
+    }
+
     /// records every write instead of mixing it: two values hash alike iff the transcripts are equal
     struct Tr { buf: [u64; 6], n: usize }
     impl std::hash::Hasher for Tr {
